@@ -196,7 +196,7 @@ new.append(entry("C14", level="other",
     functions=["types.(HHmm).String", "types.HHmmFromString", "types.(HHmm).MarshalJSON", "types.(*HHmm).UnmarshalJSON", "types.(*ControlState).UnmarshalJSON",
                "types.(Date).MarshalJSON", "types.(*Date).UnmarshalJSON", "types.ParseDate",
                "types.lemmaTextHHmm", "types.lemmaJSONHHmm", "types.lemmaJSONControlState", "types.lemmaJSONDate", "types.lemmaJSONDateTime",
-               "types.(*Weekdays).UnmarshalJSON", "types.(*Segments).UnmarshalJSON"] +
+               "types.(*Weekdays).UnmarshalJSON", "types.(*Segments).UnmarshalJSON", "types.(*PIN).UnmarshalJSON"] +
               ["types.Parse%sAddr" % r for r in ROLES] + ["types.lemma%sAddrText" % r for r in ROLES],
     scope=[r"^types\."],
     pinned_file="pins_types.json", pinned_labels=["contract", "macro"],
@@ -210,14 +210,14 @@ new.append(entry("C14", level="other",
                  "zone designations (layout element MST of time.Format / time.Parse; spec/time.spec): every designation Format writes is 'UTC', an alphabetic abbreviation or sign+hours (both accepted by the layout MST) or sign+hours+minutes such as +0330 (rejected by MST, accepted by -0700); the abbreviation in force at an instant, looked up at that instant's civil time, yields the offset in force (Go documents this as imperfect in the repeated hour of a zone that uses one abbreviation for both offsets); a numeric designation states the offset in force. Bounded conformance: replay driver types_text/datetime, 33 zones x every hour of 3 years, thorough tier"],
     bounded=[],
     not_decided=["Card, TimeProfile, Task (their UnmarshalJSON delegates to encoding/json's reflective struct/map decoding, which has no contract in the engine); for Weekdays and Segments only 'decodes into a nil map without panicking and leaves a map' is decided, not the value",
-                 "DateTime JSON for values held in a zone other than the process zone or UTC (their abbreviation means nothing to the decoding process: the instant is not kept - by design of the format), and the reject side of DateTime JSON; Version (fmt.Sscanf), MacAddress (net.ParseMAC), TaskType by name and CardFormat (case-folding regular-expression rewriting), PIN (variable-width decimal text), SystemTime text form",
+                 "DateTime JSON for values held in a zone other than the process zone or UTC (their abbreviation means nothing to the decoding process: the instant is not kept - by design of the format), and the reject side of DateTime JSON; Version (fmt.Sscanf), MacAddress (net.ParseMAC), TaskType by name and CardFormat (case-folding regular-expression rewriting), the accept side of PIN JSON (variable-width decimal text; the reject side - more than six characters, a non-digit - and the blank PIN are decided), SystemTime text form",
                  "JSON forms of the address types (the text round trip is decided: lemma<Role>AddrText)"],
     explanation="Decided for the leaf types whose parser is repository code over a string: HH:mm (String/HHmmFromString and JSON: accepted exactly for dd:dd with hours <= 24, minutes <= 59, not 24:mm with mm != 0; everything else of that JSON-string form rejected; decode(encode(v)) == v), door control state JSON (exactly the three names; anything else rejected), Date JSON and text (blank <-> zero value, impossible dates rejected, civil value kept whenever the day exists in the zone), DateTime JSON (decode(encode(v)) is the same instant, to the second, for every v held in the process zone or in UTC, in every process zone - under the assumed model of zone designations), and the four address types' text forms. Level 'other': the property lists more types than contracts can reach."))
 
 
 new.append(entry("C09", level="other",
-    functions=["uhppote.(*ut0311).BroadcastTo", "uhppote.(*ut0311).SendUDP", "uhppote.(*ut0311).SendTCP", "uhppote.(*ut0311).Broadcast", "uhppote.(*ut0311).Broadcast$1"],
-    scope=[r"^uhppote\.\(\*ut0311\)\."],
+    functions=["uhppote.(*ut0311).BroadcastTo", "uhppote.(*ut0311).SendUDP", "uhppote.(*ut0311).SendTCP", "uhppote.(*ut0311).Broadcast", "uhppote.(*ut0311).Broadcast$1", "uhppote.(*uhppote).udpBroadcastTo$1"],
+    scope=[r"^uhppote\.\(\*ut0311\)\.", r"^uhppote\.\(\*uhppote\)\.udpBroadcastTo\$1#"],
     pinned_file="pins_uhppote.json", pinned_labels=["contract", "macro"],
     assumptions=["assumed contracts of package net and sync.Mutex as events on a ghost socket typestate (spec/net.spec, spec/lib/net.contracts, spec/lib/sync.contracts): what the kernel does on a deadline, a dial or a close is outside",
                  "codec.Dump (debug hex dump) is a trusted contract: returns a string, does not panic",
@@ -227,7 +227,7 @@ new.append(entry("C09", level="other",
     not_decided=["the wall-clock bound itself ('returns within the configured timeout plus scheduling slack'): a statement about time, not about calls - decided instead: every blocking call is under a deadline or bounded by the Close on return, every receive loop has a variant, discovery sleeps for exactly the configured timeout",
                  "'no more goroutines than before' as a count over a history of calls; decided instead per call: at most one goroutine is started, its body contains no operation that can block for ever (channel send/receive, select: obligations of class `block`) and its loop has a variant",
                  "the two goroutines of ut0311.Listen (they end when the caller closes the listener, not with a call)"],
-    explanation="Decided clauses, as socket/lock typestate of the three sequential driver methods BroadcastTo, SendUDP, SendTCP: exactly one socket is opened per call (none on an early failure) and it is closed on every return path (`closed`); every blocking write and read happens while a deadline is set on the socket, and the dial is given a deadline (`guarded`, `dial`); the process-wide send lock is taken iff the bind port is non-zero and released on every path (`lock`); the only exits of the receive loop are an accepted datagram or a read error (`accepted`, loop invariant), i.e. the call never gives up early on its own, and the loop ends (`decreases sock.pending`: a round that neither returns nor consumes a datagram fails the variant). Discovery (ut0311.Broadcast): the same socket/lock typestate, the write under a write deadline, exactly one reply collector started (none for set-address), the caller held by time.Sleep for exactly the configured timeout (`waits`), the socket closed on return - which is what ends the collector; the collector (goroutine body Broadcast$1, attribute `goroutine`) has a loop variant and no channel operation that could block for ever. Level 'other': the wall-clock and goroutine-count clauses of the property cannot be expressed as function contracts."))
+    explanation="Decided clauses, as socket/lock typestate of the three sequential driver methods BroadcastTo, SendUDP, SendTCP: exactly one socket is opened per call (none on an early failure) and it is closed on every return path (`closed`); every blocking write and read happens while a deadline is set on the socket, and the dial is given a deadline (`guarded`, `dial`); the process-wide send lock is taken iff the bind port is non-zero and released on every path (`lock`); the only exits of the receive loop are an accepted datagram or a read error (`accepted`, loop invariant), i.e. the call never gives up early on its own - the acceptance callback of the broadcast path accepts exactly the 64-byte datagrams that carry the serial number asked for, so a stray reply is skipped, not returned - and the loop ends (`decreases sock.pending`: a round that neither returns nor consumes a datagram fails the variant). Discovery (ut0311.Broadcast): the same socket/lock typestate, the write under a write deadline, exactly one reply collector started (none for set-address), the caller held by time.Sleep for exactly the configured timeout (`waits`), the socket closed on return - which is what ends the collector; the collector (goroutine body Broadcast$1, attribute `goroutine`) has a loop variant and no channel operation that could block for ever. Level 'other': the wall-clock and goroutine-count clauses of the property cannot be expressed as function contracts."))
 
 
 new.append(entry("C10", level="other",
